@@ -87,6 +87,10 @@ def _fp(o, seen, path, depth):
             return f"{mod}.{type(o).__name__}:{o!r}"[:300]
         except Exception:  # noqa
             return f"{mod}.{type(o).__name__}"
+    if type(o).__name__ == "Dispatcher" and "function_dispatch" in mod:
+        # process-global type-dispatch registry of a built-in check: identified by name, its table of
+        # registered implementations grows lazily with backend registration and is not schema state
+        return f"dispatcher:{getattr(o, '_name', None) or getattr(o, '__name__', '?')}"
     seen[oid] = path
     try:
         out = {"__class__": f"{type(o).__module__}.{type(o).__qualname__}".replace("mc.core.sched.", "")}
